@@ -84,7 +84,8 @@ def model_value(model, v, depth=0):
 
 def verify_function(job):
     """runs in a worker process; returns a JSON-able dict"""
-    modname, key, budget, outdir, prop = job
+    modname, key, budget, outdir, prop = job[:5]
+    only = job[5] if len(job) > 5 else None
     t0 = time.time()
     res = {"key": key, "module": modname, "obligations": [], "error": None, "unsupported": None}
     try:
@@ -103,6 +104,8 @@ def verify_function(job):
             qual = c.get("function", key.split("#")[0])
             ctx = core.Ctx(qual, c, reg, budget=budget, label=key, prop=prop)
         ctx.model_value = model_value
+        if only is not None:
+            ctx.only = {(n_, int(k_)) for n_, k_ in only}
         try:
             ctx.run()
         except core.Unsupported as e:
@@ -120,8 +123,10 @@ def verify_function(job):
         for o in ctx.obligs:
             k = seen.get(o.name, 0)
             seen[o.name] = k + 1
+            if o.status == "skipped":
+                continue
             d = {"name": o.name, "occ": k, "kind": o.kind, "status": o.status, "time_s": round(o.time, 3),
-                 "line": o.lineno, "reason": o.reason, "tag": o.tag}
+                 "line": o.lineno, "reason": o.reason, "tag": o.tag, "cpu_ratio": getattr(o, "cpu_ratio", None)}
             if o.status != "discharged":
                 fn = os.path.join(outdir, re.sub(r"[^A-Za-z0-9_.-]+", "_", "%s__%s__%d" % (key, o.name[:80], k)) + ".smt2")
                 try:
@@ -162,20 +167,100 @@ def _job_main(job, q):
     q.put(verify_function(job))
 
 
-def run_jobs(jobs, limit):
-    """one process per function under contract, at most 14 at a time, each with a hard wall-clock limit
-    (z3 does not always honour its own timeout; a function that exceeds the limit is *undecided*, never a verdict)"""
+# ------------------------------------------------------------------------------------ machine calibration
+REF_SPEED = 4400.0      # iterations of _spin's inner block per CPU-second on the machine the time limits were tuned on
+CAL = {}
+
+
+def _spin(q, stop, wall, windows):
+    x = 1
+    for w in range(windows):
+        if stop.is_set():
+            break
+        t0 = time.time()
+        c0 = time.process_time()
+        n = 0
+        while time.time() - t0 < wall:
+            for _ in range(2000):
+                x = (x * 1103515245 + 12345) & 0x7fffffff
+            n += 1
+        q.put((w, n, time.process_time() - c0, time.time() - t0))
+
+
+def calibrate():
+    """How many cores does this run really get, and how fast are they?  os.cpu_count() says what the machine has, not what a
+    cgroup quota, an affinity mask, a busy host or other jobs leave; with more solver processes than cores every wall-clock limit
+    of the discharge procedure shrinks by the oversubscription factor and proofs that need 0.2 s of a 1.5 s limit time out
+    (observed: 16 reported / 2 effective cores).  Measured: cpu_count() processes spin through windows of 0.4 s wall time; the CPU
+    time they got in a window / its wall time = effective cores; iterations per CPU-second against the reference machine =
+    slowness.  Freshly forked processes are spread over idle (v)CPUs only after a second or so - the first windows under-report -
+    so at least three windows are taken, until two consecutive ones agree, and the larger of the last two counts.
+    The result sizes the process pools and the factor core.TS by which every wall-clock limit is multiplied.
+    KVC_CORES / KVC_TSCALE override the measurement."""
+    if CAL:
+        return CAL
+    n = os.cpu_count() or 4
+    eff, speed, hist = float(n), REF_SPEED, []
+    ps = []
+    try:
+        q = mp.Queue()
+        stop = mp.Event()
+        windows = 8
+        ps = [mp.Process(target=_spin, args=(q, stop, 0.4, windows)) for _ in range(n)]
+        for p in ps:
+            p.start()
+        got = {}
+        for w in range(windows):
+            while len(got.get(w, [])) < n:
+                r = q.get(timeout=60)
+                got.setdefault(r[0], []).append(r)
+            cpu = sum(r[2] for r in got[w])
+            wall = sum(r[3] for r in got[w]) / n
+            hist.append(round(cpu / wall, 2))
+            if len(hist) >= 3 and abs(hist[-1] - hist[-2]) <= 0.2 * max(hist[-1], hist[-2]):
+                k = w if hist[-1] >= hist[-2] else w - 1
+                eff = hist[k]
+                speed = sum(r[1] for r in got[k]) / max(sum(r[2] for r in got[k]), 1e-6)
+                break
+            eff = hist[-1]
+            speed = sum(r[1] for r in got[w]) / max(cpu, 1e-6)
+        stop.set()
+    except Exception:
+        pass
+    for p in ps:
+        p.join(3)
+        if p.is_alive():
+            p.terminate()
+    cores = max(1, min(n, int(eff + 0.5)))
+    ts = min(8.0, max(1.0, REF_SPEED / max(speed, 1.0)))
+    if os.environ.get("KVC_CORES"):
+        cores = max(1, int(os.environ["KVC_CORES"]))
+    if os.environ.get("KVC_TSCALE"):
+        ts = float(os.environ["KVC_TSCALE"])
+    CAL.update(reported_cores=n, effective_cores=cores, measured=hist, slowness=round(REF_SPEED / max(speed, 1.0), 2), time_scale=round(ts, 2))
+    return CAL
+
+
+def run_jobs(jobs, limit, second_pass=False):
+    """one process per function under contract, at most 14 at a time (and never more than the effective cores), each with a hard
+    wall-clock limit (z3 does not always honour its own timeout; a function that exceeds the limit is *undecided*, never a verdict)"""
     results = []
     pending = list(jobs)
     running = []
     # obligations are proved in forked children of the per-function workers: at most KVC_PAR per function (default 6) and NCPU in all
     from kvc import core
+    cal = calibrate()
+    cores = cal["effective_cores"]
+    core.TS = cal["time_scale"]
+    core.SECOND_PASS = bool(second_pass)
+    limit = limit * max(1.0, core.TS)
+    workers = max(1, min(14, cores if cores >= 8 else (cores + 1) // 2))
     if "KVC_PAR" not in os.environ:
         core.PAR = 6
     if core.PAR > 1:
-        core.SOLVER_SLOTS = mp.BoundedSemaphore(max(2, (os.cpu_count() or 4)))
+        core.SOLVER_SLOTS = mp.BoundedSemaphore(max(1, cores))
     while pending or running:
-        while pending and len(running) < 14:
+        while pending and len(running) < workers:
             job = pending.pop(0)
             q = mp.Queue()
             p = mp.Process(target=_job_main, args=(job, q))
@@ -304,7 +389,52 @@ def main():
     skipped_quick = [e[1] for e in cfg.DEDUCTIVE if len(e) > 2 and e[2] == "thorough" and tier == "quick"]
     jobs = [(e[0], e[1], budget, os.path.join(outdir, "vc"), prop) for e in cfg.DEDUCTIVE
             if (not a.only or a.only in e[1]) and not (len(e) > 2 and e[2] == "thorough" and tier == "quick")]
-    results = run_jobs(jobs, 900 if tier == "quick" else 3600)
+    hard_limit = 900 if tier == "quick" else 3600
+    results = run_jobs(jobs, hard_limit)
+    # second pass: z3's run time on these VCs is heavy-tailed and every limit of the discharge procedure is a wall-clock one, so an
+    # obligation left *undecided* (never one that failed with a counter-model) is tried once more - it alone, not the whole function -
+    # after the rest of the work has finished (fewer processes competing), with the short limits (<= 2.5 s: side proofs, first
+    # phases) tripled, the long ones x1.5 and a shorter restart portfolio.  Both passes are logged in the evidence.
+    retried = []
+
+    def _undec(r):
+        if r.get("error"):
+            return 0
+        if (r.get("unsupported") or "").startswith("hard time limit"):
+            return 10 ** 6
+        return sum(o["status"] == "undecided" for o in r.get("obligations", []))
+
+    def _starved(o):
+        # the proof had a CPU for less than 3/4 of its wall time (or nothing is known): its wall-clock limits were cut short.
+        # An obligation that stayed undecided although it had the CPU to itself is undecided at this budget; repeating it is pointless.
+        return o["status"] == "undecided" and (o.get("cpu_ratio") is None or o["cpu_ratio"] < 0.75 or os.environ.get("KVC_RETRY_ALL"))
+    again = [i for i, r in enumerate(results) if _undec(r) > 0 and (_undec(r) == 10 ** 6 or any(_starved(o) for o in r["obligations"]))]
+    if again and not os.environ.get("KVC_NO_RETRY"):
+        jobs2 = []
+        for i in again:
+            whole = (results[i].get("unsupported") or "").startswith("hard time limit")
+            sel = None if whole else [(o["name"], o["occ"]) for o in results[i]["obligations"] if _starved(o)]
+            jobs2.append(tuple(jobs[i]) + (sel,))
+        second = run_jobs(jobs2, hard_limit, second_pass=True)
+        for i, j2, r2 in zip(again, jobs2, second):
+            rec = {"function": jobs[i][1], "undecided_first_pass": min(_undec(results[i]), 9999)}
+            if r2.get("error") or (r2.get("unsupported") or "").startswith("hard time limit"):
+                rec.update(second_pass="no result", undecided_after=rec["undecided_first_pass"])
+            elif j2[5] is None:
+                if _undec(r2) < _undec(results[i]):
+                    results[i] = r2
+                rec["undecided_after"] = min(_undec(results[i]), 9999)
+            else:
+                new = {(o["name"], o["occ"]): o for o in r2.get("obligations", [])}
+                for k_, o in enumerate(results[i]["obligations"]):
+                    o2 = new.get((o["name"], o["occ"]))
+                    if o["status"] == "undecided" and o2 is not None and o2["status"] != "undecided":
+                        o2 = dict(o2, time_s=round(o["time_s"] + o2["time_s"], 3), reason=(o2.get("reason") or "z3") + " [second pass]")
+                        results[i]["obligations"][k_] = o2
+                results[i]["solver_s"] = round(results[i].get("solver_s", 0) + r2.get("solver_s", 0), 3)
+                results[i]["wall_s"] = round(results[i].get("wall_s", 0) + r2.get("wall_s", 0), 3)
+                rec["undecided_after"] = _undec(results[i])
+            retried.append(rec)
 
     # ---- expected floor (vacuity / stale contract guard)
     exp_path = os.path.join(ROOT, "contracts", "EXPECTED.json")
@@ -332,7 +462,7 @@ def main():
     try:      # per-obligation log of this run (status, seconds, deciding phase): used to spot slow / unstable obligations
         with open(os.path.join(ROOT, "out", prop, "obligations_%s.json" % tier), "w") as f_:
             json.dump([{"function": r["key"], "wall_s": r.get("wall_s"), "obligations": [
-                {k: o.get(k) for k in ("name", "occ", "status", "time_s", "reason", "line")} for o in r.get("obligations", [])]} for r in results], f_, indent=0)
+                {k: o.get(k) for k in ("name", "occ", "status", "time_s", "reason", "line", "cpu_ratio")} for o in r.get("obligations", [])]} for r in results], f_, indent=0)
     except Exception:
         pass
     for r in results:
@@ -472,6 +602,8 @@ def main():
         "bounded": {k: v for k, v in (bounded or {}).items() if k not in ("violations", "samples")} if bounded else None,
         "explanation": cfg.EXPLANATION,
         "deductive_seed_independent": True,
+        "machine": dict(calibrate(), note="wall-clock limits of the discharge procedure are multiplied by time_scale; process pools sized by effective_cores"),
+        "second_pass": retried,
         "verified_in_thorough_tier_only": skipped_quick,
     }
     if bounded and "cases" in bounded:
